@@ -132,7 +132,8 @@ impl<T> Route<T> {
 
         for header in self.headers() {
             for request_header in &request.headers {
-                if request_header.name != header.name {
+                // header names are matched without regard to case: capture from the same headers
+                if request_header.name.to_lowercase() != header.name.to_lowercase() {
                     continue;
                 }
 
